@@ -1088,9 +1088,15 @@ func (ba *badgerBatch) Commit(root node.Root) error {
 		// be identical and we would just be duplicating work.
 		//
 		// If we are importing a chunk, there can be multiple commits for the same root.
+		//
+		// The root may be listed without actually being there: an interrupted or aborted
+		// checkpoint restore leaves the roots metadata of its version behind while its nodes
+		// and root entry are removed. In this case the commit needs to proceed.
 		if !ba.chunk {
-			ba.Reset()
-			return ba.BaseBatch.Commit(root)
+			if _, err = tx.Get(rootNodeKeyFmt.Encode(&rootHash)); err == nil {
+				ba.Reset()
+				return ba.BaseBatch.Commit(root)
+			}
 		}
 	} else {
 		// Create root with no derived roots.
